@@ -111,10 +111,10 @@ func discoverCacheRoles(c *Ctx) *cacheRoles {
 				}
 			}
 			if nmaps > 0 {
-				r.histT, r.histName = st, cst.Field(i).Name()
+				r.histT, r.histName = st, refFieldName(lastSeg(typeString(r.cacheT)), cst.Field(i).Name())
 				for j := 0; j < st.NumFields(); j++ {
 					if _, isMap := st.Field(j).Type().Underlying().(*types.Map); isMap {
-						r.journals = append(r.journals, st.Field(j).Name())
+						r.journals = append(r.journals, refFieldName(lastSeg(typeString(cst.Field(i).Type())), st.Field(j).Name()))
 					}
 				}
 			}
@@ -639,7 +639,7 @@ func failingEdgeAlwaysReturns(f *ssa.Function, ev ssa.Value) bool {
 func (r *cacheRoles) histNamed(c *Ctx) *types.Named {
 	cst := r.cacheT.Underlying().(*types.Struct)
 	for i := 0; i < cst.NumFields(); i++ {
-		if cst.Field(i).Name() == r.histName {
+		if refFieldName(lastSeg(typeString(r.cacheT)), cst.Field(i).Name()) == r.histName {
 			if n, ok := cst.Field(i).Type().(*types.Named); ok {
 				return n
 			}
